@@ -64,12 +64,21 @@ pub fn check_batch(b: &LpBatch, probe: &Probe) -> Verdict {
 
 const ALPHA: &[&str] = &["abc", "x1", "xy", "a b", "  xy  ", "Abc", "é1", "", "  ", "TODO: x y", "\u{a0}abc\u{3000}", "\u{2003}", "--"];
 
+const EDGE_BLANK: &[&str] = &["^- ", " = "];
+const ALPHA_EDGE: &[&str] = &["- a", "-a", "a = b", "a=b", "  - a = b  ", "", "-", "- "];
+
 pub fn enumerated(max_len: usize, batch: usize) -> Vec<LpBatch> {
     let mut specs = vec![];
     for len in 0..=max_len {
         for seq in super::c06::sequences(ALPHA, len).into_iter().filter(|s| s.len() == len) {
-            for p in models::LINE_PATS {
+            for p in models::LINE_PATS.iter().filter(|p| !EDGE_BLANK.contains(&p.re)) {
                 specs.push(LpSpec { re: p.re.to_string(), lines: seq.clone(), indent: 0 });
+            }
+        }
+        // patterns with a significant blank at an edge, over lines that differ in exactly that blank
+        for seq in super::c06::sequences(ALPHA_EDGE, len).into_iter().filter(|s| s.len() == len) {
+            for re in EDGE_BLANK {
+                specs.push(LpSpec { re: re.to_string(), lines: seq.clone(), indent: 0 });
             }
         }
     }
@@ -97,7 +106,7 @@ pub fn random_batch() -> BoxedStrategy<LpBatch> {
 }
 
 pub fn run(run: &mut Run) {
-    run.rule = "enumerated: every line sequence of length 0..k (k=4 quick, 5 thorough) over a 13-line alphabet (matching, non-matching, indented, blank, partially matching lines) x 12 anchored/unanchored patterns with hand-written predicates (5 of them can match the empty string, one is a bare zero-width assertion); random: blocks of 5..150 lines incl. Unicode. Non-trivial block = at least 2 non-blank lines and (matching and failing lines mixed, a blank line, or a padded line); distinct by (batch, block).".into();
+    run.rule = "enumerated: every line sequence of length 0..k (k=4 quick, 5 thorough) over a 13-line alphabet (matching, non-matching, indented, blank, partially matching lines) x 12 anchored/unanchored patterns with hand-written predicates (5 of them can match the empty string, one is a bare zero-width assertion), plus 2 patterns with a significant blank at an edge over an 8-line alphabet of lines differing in exactly that blank; random: blocks of 5..150 lines incl. Unicode. Non-trivial block = at least 2 non-blank lines and (matching and failing lines mixed, a blank line, or a padded line); distinct by (batch, block).".into();
     run.assumptions = vec![
         "content lines are shell/ruby words (block discovery itself is C03)".into(),
         "patterns come from a fixed family with hand-written predicates".into(),
